@@ -5,9 +5,7 @@
 (* (in-process under catch_unwind, bombs in child processes) and then      *)
 (* displayed / re-encoded / traversed / cloned / dropped the result.       *)
 (* There is no step for a panic, an abort (signal), a hang or a timeout:   *)
-(* such an event cannot be matched.  Where RFC 8010 fixes the result       *)
-(* (well-formed stream; non-tag byte; truncation) it is demanded exactly;  *)
-(* elsewhere any result or error value is a step.                          *)
+(* such an event cannot be matched; any result or error value is a step.   *)
 (***************************************************************************)
 EXTENDS IppModel, IppBytes, TLC, Json, IOUtils
 CONSTANTS NestingDomain
@@ -17,49 +15,20 @@ VARIABLE l
 vars == <<l>>
 
 NoCrash(o) == IF o.ok THEN TRUE ELSE o.err \notin {"PANIC", "HANG", "ABORT"}
-SameErr(a, b) == /\ a.err = b.err
-                 /\ (a.err = "InvalidTag" => a.tag = b.tag)
-                 /\ (a.err = "Io" => a.kind = b.kind)
-SameOutcome(a, b) == /\ a.ok = b.ok
-                     /\ IF a.ok THEN (IF "msg" \in DOMAIN a /\ "msg" \in DOMAIN b THEN a.msg = b.msg ELSE TRUE)
-                        ELSE SameErr(a, b)
-
-RECURSIVE BCO(_,_)
-BCO(cs, i) == IF i > Len(cs) THEN "Io:UnexpectedEof"
-              ELSE CASE cs[i] = "other" -> "InvalidTag"
-                     [] cs[i] = "end"   -> "ok"
-                     [] cs[i] = "val"   -> "Io:UnexpectedEof"
-                     [] cs[i] = "delim" -> BCO(cs, i + 1)
-
-DecOK(e) ==
-  /\ NoCrash(e.dec)
-  /\ IF Len(e.toks) >= 2
-     THEN LET w == e.toks[2] IN
-          (w.t = "val" /\ w.tag = e.dectag /\ TokOK(w)) => (e.dec.ok /\ e.dec.v = Decode(w))
-     ELSE TRUE
-
+(* C02 states termination with a result or an error value and nothing else: what the result must *)
+(* BE for a well-formed stream, a non-tag byte or a cut stream is decided by C04 / C07, and the  *)
+(* agreement of the two parsers by C05 - a defect there must not fail this check.               *)
 TotalOK(e) ==
   /\ NoCrash(e.sync) /\ NoCrash(e.async) /\ e.post = "ok"
-  /\ SameOutcome(e.sync, e.async)
-  /\ LET ws    == e.toks
-         n     == Len(ws)
-         body  == IF e.term = "end" THEN ws ELSE SubSeq(ws, 1, n - 1)
-         clean == AllTokOK(body) /\ MaxNesting(AbsToks(body)) <= NestingDomain /\ PrefixOK(AbsToks(body))
-     IN CASE e.term = "bad"   -> /\ ~e.sync.ok
-                                 /\ clean => (e.sync.err = "InvalidTag" /\ e.sync.tag = ws[n].b)
-          [] e.term = "trunc" -> /\ ~e.sync.ok
-                                 /\ clean => (e.sync.err = "Io" /\ e.sync.kind = "UnexpectedEof")
-          [] e.term = "end"   -> LET r == Reading(AbsToks(ws)) IN
-                                 (clean /\ r.ok) => /\ e.sync.ok
-                                                    /\ e.sync.msg.hdr = e.hdr
-                                                    /\ NormMsg(e.sync.msg.groups) = NormMsg(r.v)
-  /\ IF "dec" \in DOMAIN e THEN DecOK(e) ELSE TRUE
+  /\ IF "dec" \in DOMAIN e THEN NoCrash(e.dec) ELSE TRUE
 
-Bytes3OK(e) == e.count > 0 /\ DOMAIN e.outs = {BCO(e.classes, 1)}
+Bytes3OK(e) == /\ e.count > 0
+               /\ \A i \in 1..Len(e.outs) : /\ e.outs[i].sync \notin {"PANIC", "HANG", "ABORT"}
+                                             /\ e.outs[i].async \notin {"PANIC", "HANG", "ABORT"}
+                                             /\ e.outs[i].post = "ok"
 
 BombOK(e) == /\ e.status = "exit:0"
              /\ NoCrash(e.res.sync) /\ NoCrash(e.res.async) /\ e.res.post = "ok"
-             /\ SameOutcome(e.res.sync, e.res.async)
 
 Step(e) == CASE e.ev = "total"  -> TotalOK(e)
              [] e.ev = "bytes3" -> Bytes3OK(e)
